@@ -63,7 +63,11 @@ class C11(Prop):
         break_after = s.draw(max(1, n_items), "break-after") if end.startswith("break") else None
         # a second, simple stream created in the same scope and consumed before or after the first one
         pre_cancelled = (not cancel_consumer) and s.chance(1, 6, "pre-cancelled")
-        source_kind = s.weighted((4, 1, 1, 1), "source-kind")  # plain async generator function, functools.partial, callable instance, decorated (__wrapped__)
+        source_kind = s.weighted((4, 1, 1, 1, 1), "source-kind")  # plain async generator function, functools.partial, callable instance, decorated (__wrapped__)
+        if source_kind == 4 and end != "exhaust":
+            source_kind = 0  # (an iterator object without aclose() cannot be closed early: only exhausted)
+        # the consumer may iterate the stream from inside an exception handler of its own (flushing while it fails)
+        in_handler = s.chance(1, 6, "consumed-inside-exception-handler")
         second = (mode in ("same-scope", "outside-scope") and end == "exhaust" and not cancel_consumer
                   and s.chance(1, 3, "second-stream"))
         second_first = bool(second and s.draw(2, "second-first"))
@@ -76,8 +80,8 @@ class C11(Prop):
 
         sim.program = {"mode": mode, "end": end, "items": n_items, "item_kinds": item_kinds, "steps": steps, "gen_raises": gen_raises,
                        "cancel_consumer": cancel_consumer, "break_after": break_after, "second_stream": int(second),
-                       "second_consumed_first": int(second_first), "created_in_nested_scope_left_before_consumption": depth - 1, "consumer_swallowed_a_cancel_before": int(pre_cancelled),
-                       "source": ("function", "functools.partial", "callable instance", "decorated with functools.wraps")[source_kind]}
+                       "second_consumed_first": int(second_first), "created_in_nested_scope_left_before_consumption": depth - 1, "consumer_swallowed_a_cancel_before": int(pre_cancelled), "consumed_inside_exception_handler": int(in_handler),
+                       "source": ("function", "functools.partial", "callable instance", "decorated with functools.wraps", "plain async iterator object")[source_kind]}
         if mode != "same-scope" or end in ("break-drop", "never-started") or gen_raises or cancel_consumer:
             sim.nontrivial = True
 
@@ -258,6 +262,14 @@ class C11(Prop):
                 sim.report("R1-second-stream", f"second stream delivered {got}", kind="items", **feat())
 
         async def consume(stream):
+            if not in_handler:
+                return await consume_now(stream)
+            try:
+                raise KeyError("the consumer is handling an error of its own")
+            except KeyError:
+                return await consume_now(stream)
+
+        async def consume_now(stream):
             if pre_cancelled:
                 # the consuming task handled a cancellation earlier (without uncancel): streams must still work
                 asyncio.current_task().cancel()
@@ -336,6 +348,19 @@ class C11(Prop):
                 if source_kind == 1:
                     import functools
                     holder["stream"] = ctx.stream(functools.partial(gen, "tag"))
+                elif source_kind == 4:
+                    class PlainIterator:
+                        """An async iterator that is not a generator: __aiter__/__anext__ only (no aclose, athrow, asend)."""
+
+                        def __init__(self, tag):
+                            self.inner = gen(tag)
+
+                        def __aiter__(self):
+                            return self
+
+                        async def __anext__(self):
+                            return await self.inner.__anext__()
+                    holder["stream"] = ctx.stream(PlainIterator, "tag")
                 elif source_kind == 3:
                     import functools
 
